@@ -33,7 +33,7 @@ ASSUMPTIONS = [
     "URL case / trailing-slash variants and duplicated tags with one correct value are free; created_at exactly 600 s off is free",
     "identity is observed through behaviour: save requires role w (only P1 has it), query requires role r (only P2)",
 ]
-MIN_NONTRIVIAL = {"quick": 150, "thorough": 600}
+MIN_NONTRIVIAL = {"quick": 150, "thorough": 150}
 REQUIRED_COUNTERS = ["payloads.must_refuse", "payloads.must_accept", "sequences", "challenges_checked"]
 SHARD_TIMEOUT = {"quick": 600, "thorough": 3200}
 URL = "ws://relay.example:6969"
